@@ -209,13 +209,15 @@ def matrix_prod(mat, states, inplace=False):
     """matrix multiplication"""
     xp = common.get_array_module()
     ndim = states.ndim - mat.ndim + 1
-    mat = mat[(...,) + (NAX,) * ndim + (SL, SL)] if ndim > 1 else mat[..., NAX, :, :]
 
     if inplace:
         try:
+            # the state axis is a core axis here: append only the missing batch axes
+            mat_ = mat[(...,) + (NAX,) * max(ndim - 1, 0) + (SL, SL)]
             return xp.matmul(
-                mat, states, axes=[(-2, -1), (-1, -2), (-1, -2)], out=states
+                mat_, states, axes=[(-2, -1), (-1, -2), (-1, -2)], out=states
             )
         except ValueError:
             pass  # inplace not feasible
+    mat = mat[(...,) + (NAX,) * ndim + (SL, SL)] if ndim > 1 else mat[..., NAX, :, :]
     return xp.matmul(mat, states[..., xp.newaxis])[..., 0]
